@@ -284,3 +284,12 @@ def run(ctx):
     from . import C12
     C12.r6_final_flush(ctx, 'C15.R6')
     r5_result(ctx)
+
+
+_run_rules = run
+
+
+def run(ctx):
+    _run_rules(ctx)
+    from .. import boundaries
+    boundaries.check(ctx, 'C15.RB', 'C15')
